@@ -41,6 +41,9 @@ def build(case, labels=None):
         kw["roots"] = case["roots"]
     if case["allow_empty"]:
         kw["allow_empty_group"] = True
+    if case.get("intflags"):  # options given as 1 / 0 instead of True / False
+        kw["allow_empty_group"] = int(case["allow_empty"])
+        kw["use_graph_primitive"] = int(bool(case["prim"]))
     form = case["form"]
     with gcheck.GraphConfig(use_graph_primitive=bool(case["prim"])):
         if form == "grid":
@@ -59,6 +62,16 @@ def build(case, labels=None):
             d = s.int_array(case["n"], 0, R - 1)
             graph.division_connected(s, list(d), R, g, **kw)
             return s, list(d)
+        if form == "subdomain":
+            # label variables whose own domains are different sub-ranges of 0..R-1
+            d = [s.int_var(lo, hi) for lo, hi in case["doms"]]
+            graph.division_connected(s, IntArray1D(d) if case.get("as_array") else d, R, g, **kw)
+            return s, d
+        if form == "exprs":
+            # labels given as compound expressions over variables with shifted domains
+            xs = [s.int_var(1 + (v % 2), R + (v % 2)) for v in range(case["n"])]
+            graph.division_connected(s, [x - (1 + (v % 2)) for v, x in enumerate(xs)], R, g, **kw)
+            return s, xs
         if form == "literals":
             graph.division_connected(s, [int(x) for x in labels], R, g, **kw)
             return s, []
@@ -103,7 +116,12 @@ def run_case(part, case, prange=None):
                 continue
             gcheck.judge(part, key, case, labels, exp, s, [])
         else:
-            gcheck.judge(part, key, case, labels, exp, s, [gcheck.fix(v, b) for v, b in zip(dvars, labels)])
+            vals = labels
+            if case["form"] == "subdomain":
+                exp = exp and all(lo <= x <= hi for x, (lo, hi) in zip(labels, case["doms"]))
+            elif case["form"] == "exprs":
+                vals = [x + 1 + (v % 2) for v, x in enumerate(labels)]
+            gcheck.judge(part, key, case, labels, exp, s, [gcheck.fix(v, b) for v, b in zip(dvars, vals)])
     if "labelings" in case:
         part.add("scale", (n, R))
     else:
@@ -160,7 +178,7 @@ def scale_cases(tier):
     return out
 
 
-def roots_menu(n, R, full):
+def roots_menu(n, R, full, long=False):
     out = [None]
     if full:
         for lst in itertools.product([None] + list(range(n)), repeat=R):
@@ -171,6 +189,10 @@ def roots_menu(n, R, full):
         if R <= n:
             out.append(list(range(R)))
             out.append(list(range(n - 1, n - 1 - R, -1)))
+        # a list longer than num_regions: the extra position is a label no vertex can carry (None there changes nothing)
+    if long:
+        out.append([None] * R + [n - 1])
+        out.append([None] * (R + 1))
     return out
 
 
@@ -187,7 +209,7 @@ def cases_for(tier):
                     continue
                 if n == 4 and R == 4 and len(edges) < 3:
                     continue
-                for roots in roots_menu(n, R, full=(n <= 3 and R <= 2)):
+                for roots in roots_menu(n, R, full=(n <= 3 and R <= 2), long=(n <= 3 or (n == 4 and R == 2))):
                     if tier == "quick" and n == 4 and R == 3 and roots is not None:
                         continue
                     for allow_empty in (False, True):
@@ -204,13 +226,59 @@ def cases_for(tier):
             for edges in graphref.simple_graphs(n):
                 if edges:
                     out.append({"form": "array1d", "n": n, "edges": graphref.orient(edges, 1), "R": min(2, maxR), "roots": None, "allow_empty": False, "prim": False})
+    for n in (2, 3):
+        for edges in graphref.simple_graphs(n):
+            for allow_empty in (False, True):
+                for prim in (False, True):
+                    out.append({"form": "array1d", "n": n, "edges": list(edges), "R": 2, "roots": None, "allow_empty": allow_empty, "prim": prim, "intflags": True})
+    # label variables with heterogeneous domains inside 0..R-1, and labels given as compound expressions
+    def doms_menu(n, R):
+        return [
+            [(0, R - 1) if v % 2 == 0 else (0, R - 2) for v in range(n)],
+            [((0, R - 1), (0, R - 2), (1, R - 1))[(v + 1) % 3] for v in range(n)],
+            [(0, R - 2) if v % 2 == 0 else (0, R - 1) for v in range(n)],
+        ]
+
+    for n in range(2, 5):
+        for edges in graphref.simple_graphs(n):
+            if n == 4 and len(edges) not in (3, 4):
+                continue
+            for R in (2, 3):
+                if n == 4 and R == 2:
+                    continue
+                for prim in (False, True):
+                    for k, doms in enumerate(doms_menu(n, R)):
+                        if tier == "quick" and n == 4 and k == 2:
+                            continue
+                        for allow_empty in ((False, True) if n <= 3 else (False,)):
+                            out.append({"form": "subdomain", "n": n, "edges": list(edges), "R": R, "roots": None, "allow_empty": allow_empty, "prim": prim, "doms": doms, "as_array": k == 1})
+                    if n <= 3 or len(edges) == 3:
+                        out.append({"form": "exprs", "n": n, "edges": list(edges), "R": R, "roots": None if n % 2 else [n - 1] + [None] * (R - 1), "allow_empty": False, "prim": prim})
+    for h, w in ((2, 3), (3, 2), (1, 5)):
+        n = h * w
+        for k, doms in enumerate(doms_menu(n, 3)[:2]):
+            for prim in (False, True):
+                out.append({"form": "subdomain", "n": n, "edges": graphref.grid_edges(h, w), "R": 3, "roots": None, "allow_empty": False, "prim": prim, "doms": doms})
+    # structured mid-sized graphs (cycles sharing a vertex, degree-4 trees, isolated vertices, cubic graphs), all R^n labelings
+    for name, n, es in graphref.zoo():
+        relab = name.endswith("~relabelled")
+        for R in (2, 3):
+            if R ** n > (130 if tier == "quick" else 2200):
+                continue
+            menu = roots_menu(n, R, full=False)
+            for roots in ([menu[0], menu[2 if relab else 1]] if tier == "quick" else menu):
+                for allow_empty in (False, True):
+                    for prim in (False, True):
+                        if tier == "quick" and (prim != relab or (allow_empty and roots is not None)):
+                            continue
+                        out.append({"form": "array1d", "n": n, "edges": list(es), "R": R, "roots": roots, "allow_empty": allow_empty, "prim": prim, "name": name})
     maxcells = 6 if tier == "quick" else 8
     for h, w in graphref.grid_shapes(maxcells):
         n = h * w
         for R in range(1, 4):
             if R ** n > 7000:
                 continue
-            for roots in roots_menu(n, R, full=False):
+            for roots in roots_menu(n, R, full=False, long=(n <= 4)):
                 for allow_empty in (False, True):
                     for prim in (False, True):
                         if prim and roots is not None and allow_empty:
